@@ -144,6 +144,7 @@ pub fn trace(events: &[Event]) -> Vec<String> {
     events.iter().filter_map(|e| match e {
         Event::Push { place, func, .. } => Some(format!("{}({})", if func.ends_with("for_field") { "push_field" } else { "push" }, place.trim_start_matches('$'))),
         Event::Note(n) if n.starts_with("loop-") => Some(n.clone()),
+        Event::Write { fmt, .. } => Some(format!("write({fmt:?})")),
         _ => None,
     }).collect()
 }
